@@ -15,7 +15,7 @@ import numpy as np
 import bct
 from bctmc import seedtable as stb
 from bctmc.explorer import Explorer, Unmodelled
-from bctmc.runner import quiet
+from bctmc.runner import quiet, guarded
 from bctmc.tally import Tally
 
 PROPERTY = 'C05'
@@ -76,12 +76,16 @@ def states_equal(a, b):
     return a[0] == b[0] and np.array_equal(a[1], b[1]) and a[2:] == b[2:]
 
 
-def run_call(name, idx, seed_kw):
-    try:
-        with quiet():
-            return stb.call(name, idx, seed_kw)
-    except Exception as e:  # noqa: BLE001
-        return e
+class NoReturn(Exception):
+    pass
+
+
+def run_call(name, idx, seed_kw, timeout=10):
+    """call under a wall-clock alarm: a call that does not return is an outcome (and a violation), never a hang"""
+    st, out = guarded(stb.call, name, idx, seed_kw, _timeout=timeout)
+    if st == 'timeout':
+        return NoReturn('call did not return within %ds' % timeout)
+    return out
 
 
 def short(x):
@@ -121,6 +125,11 @@ def histories(t, name, idx, depth):
                     k = int(op[1])
                     seed = k if op[0] == 'S' else np.random.RandomState(k)
                     r = run_call(name, idx, {'seed': seed})
+                    if isinstance(r, NoReturn):
+                        t.viol(name, 'seeded_call_returns', case, observed=str(r),
+                               tags={'seed_kind': 'int' if op[0] == 'S' else 'RandomState'})
+                        t.flags['history_search_cut_short_by_non_returning_call'] += 1
+                        return      # every further history would wait for the alarm again
                     if not states_equal(gstate(), gs):
                         t.viol(name, 'seeded_call_leaves_global_generator_untouched', case,
                                tags={'seed_kind': 'int' if op[0] == 'S' else 'RandomState'})
